@@ -56,9 +56,14 @@ class Model:
         self.by_key = {}
         self.counter = 0
 
-    def create(self, schema, name, cols):
+    def create(self, schema, name, cols, index_only=None):
         t = {"schema": schema, "name": name, "cols": [{"name": c, "type": "int", "size": None, "default": None, "unique": False} for c in cols],
              "alter": {}, "index": []}
+        if index_only:
+            # a column whose name is an ALTER-only keyword (RENAME, MODIFY, COLUMN ...): a plain name in CREATE TABLE / CREATE INDEX;
+            # it is only ever used in index column lists (inside an ALTER statement the word is a keyword by design)
+            t["cols"].append({"name": index_only, "type": "int", "size": None, "default": None, "unique": False, "index_only": True})
+            cols = list(cols) + [index_only]
         self.tables.append(t)
         self.by_key[(norm(name), norm(schema))] = t
         return "CREATE TABLE %s (%s);" % (qual(schema, name), ", ".join(c + " int" for c in cols))
@@ -67,7 +72,7 @@ class Model:
         """mutate the model table t and return the statement text (ref = spelled table reference), or None if not applicable"""
         self.counter += 1
         k = self.counter
-        names = [c["name"] for c in t["cols"]]
+        names = [c["name"] for c in t["cols"] if not c.get("index_only") or kind in ("index", "uindex")]
         a = t["alter"]
         if kind in ("add", "add_default"):
             nm = "n%d" % k
@@ -172,7 +177,8 @@ def gen_history(rng, table_set=None, plan=None, styles="puldkbD"):
     stmts = []
     tset = table_set or rng.choice(TABLE_SETS)
     for schema, name in tset:
-        stmts.append(m.create(schema, name, ["a", "b", "c", "d"][:rng.randint(2, 4)]))
+        stmts.append(m.create(schema, name, ["a", "b", "c", "d"][:rng.randint(2, 4)],
+                              index_only=rng.choice(["rename", "modify", "column", "Modify", "COLUMN"]) if rng.random() < 0.25 else None))
     n_alter = 0
     respelled = False
     steps = plan or [(rng.choice(KINDS), None) for _ in range(rng.randint(1, 8))]
@@ -185,13 +191,16 @@ def gen_history(rng, table_set=None, plan=None, styles="puldkbD"):
             continue
         if (rs, rn) != (t["schema"], t["name"]):
             respelled = True
+        if st.startswith("ALTER TABLE ") and rng.random() < 0.15:
+            st = "ALTER TABLE " + rng.choice(["IF EXISTS ", "ONLY "]) + st[len("ALTER TABLE "):]      # same statement, optional noise words
         stmts.append(st)
         n_alter += 1
     # a statement naming a table that is not defined
     ghost_schema, ghost_name = rng.choice([(None, "ghost"), ("nosuch", tset[0][1]), (None if tset[0][0] else "nosuch", tset[0][1]), ("sa", "ghost")])
     if (norm(ghost_name), norm(ghost_schema)) in m.by_key:
         ghost_schema, ghost_name = "nosuch", "ghost"
-    gkind = rng.choice(["ALTER TABLE %s ADD g1 int;", "CREATE INDEX gx ON %s (a);", "ALTER TABLE %s DROP COLUMN a;", "ALTER TABLE %s ADD CONSTRAINT gu UNIQUE (a);"])
+    gkind = rng.choice(["ALTER TABLE %s ADD g1 int;", "CREATE INDEX gx ON %s (a);", "ALTER TABLE %s DROP COLUMN a;", "ALTER TABLE %s ADD CONSTRAINT gu UNIQUE (a);",
+                        "ALTER TABLE IF EXISTS %s ADD g1 int;", "ALTER TABLE ONLY %s ADD g2 int;"])
     ghost = gkind % qual(ghost_schema, ghost_name)
     return {"stmts": stmts, "model": m.snapshot(), "ghost": ghost, "n_alter": n_alter, "respelled": respelled, "n_tables": len(tset)}
 
